@@ -15,12 +15,12 @@ RULE = (
     "BOTH an acceptance and a rejection were observed and alpha was recomputed from scratch"
 )
 REQUIRED = {"decisions": 3000, "alpha_recomputed": 2000, "accepted": 300, "rejected": 300, "sample_calls": 500,
-            "cells_gibbs": 3, "cells_fastgibbs": 3, "cells_metropolis-hastings": 3, "cells_ind": 3}
+            "cells_gibbs": 3, "cells_fastgibbs": 3, "cells_metropolis-hastings": 3, "cells_ind": 3, "alpha_plus_inf_decisions": 5, "alpha_recomputed_mixture": 50}
 ASSUMPTIONS = [
     "attachment = nodes nll_attach / nll_attach_ind, regularity = each latent variable's own prior node (nll_regul_<v>[_ind]); both re-evaluated from "
     "scratch through the variables' own definitions (the densities themselves are C08's job)",
-    "mixture model: per-cluster weighted regularity of the individual sampler is not pinned by the documentation - its alpha is not recomputed "
-    "(proposal, draw grammar, decision = [u < observed alpha] and final value are still verified)",
+    "mixture model: the regularity of an individual in a state is taken as the responsibility-weighted per-cluster regularity of THAT state "
+    "(responsibilities = softmax of -per-cluster total regularity, clamped at -100, as the model's own update rules define them)",
     "decisions within 1e-4 relative of the threshold are ties: counted, not judged",
 ]
 
@@ -50,9 +50,9 @@ def run_shard(spec, ctx):
         gi = (spec["k"] * 7 + i) % len(gen.MODEL_GRID)
         g = gen.MODEL_GRID[gi]
         kind_pop = KINDS[(spec["k"] + i) % 3]
-        regime = ["normal", "huge", "tiny", "mixed"][(spec["k"] // 3 + i) % 4]
+        regime = ["normal", "huge", "tiny", "mixed", "badstart"][(spec["k"] // 3 + i) % 5]
         try:
-            model, ds, state0, df = gen.ready_state(rng, *g, n_ind=int(rng.integers(3, 9)))
+            model, ds, state0, df = gen.ready_state(rng, *g, n_ind=int(rng.integers(3, 9)) if regime != "badstart" else int(rng.integers(25, 40)))
             torch.manual_seed(int(rng.integers(1 << 30)))
             algo, state = make_algo(model, ds, rng, sampler_pop=kind_pop, n_iter=20)
         except Exception as e:
@@ -85,7 +85,16 @@ def run_shard(spec, ctx):
             c["alpha"] += loc.get("alpha_recomputed", 0)
             stats["sample_calls"] = stats.get("sample_calls", 0) + 1
 
+        if regime == "badstart":
+            # a state far from the data on a larger cohort: moves back improve the likelihood by > 89 nats, exp(-D) overflows to +inf in
+            # float32 (and some moves give NaN) - the "always draw" rule must hold there too
+            with state.auto_fork(None):
+                for pv, off in (("log_v0", 2.5), ("log_g", -2.0), ("g", 0.5)):
+                    if pv in pop_names:
+                        state[pv] = state[pv] + off
         for nm, s in algo.samplers.items():
+            if regime == "badstart":
+                s.std = s.std * 40.0
             if regime == "huge":
                 s.std = s.std * 100.0
             elif regime == "tiny":
